@@ -1,6 +1,7 @@
 use crate::common::Ctx;
 use crate::report::Report;
 
+pub mod conc;
 pub mod diff;
 pub mod faults;
 pub mod foreign;
@@ -26,6 +27,7 @@ pub fn dispatch(ctx: &Ctx, rep: &mut Report) -> bool {
         "C11" => hostile::run_c11(ctx, rep),
         "C12" => faults::run_c12(ctx, rep),
         "C13" => faults::run_c13(ctx, rep),
+        "C14" => conc::run_c14(ctx, rep),
         "C15" => more::run_c15(ctx, rep),
         "C16" => modes::run_c16(ctx, rep),
         "C17" => more::run_c17(ctx, rep),
